@@ -33,19 +33,88 @@ structure SealPre (s : State) : Prop where
 theorem C01_settlement (env : Env) (s s' : State) (h : settle env s = .ok s') (hp : SealPre s)
     (hl : legacyDeposit s = false) (d : Denom) (hd : ∀ k : PoolKey, d ≠ liqTokenDenom env k) :
     supply s' d ≤ supply s d := by
-  sorry
+  unfold settle at h
+  obtain ⟨s1, h1, h⟩ := Outcome.bind_eq_ok h
+  obtain ⟨s2, h2, h3⟩ := Outcome.bind_eq_ok h
+  have hfaith : ∀ tx ∈ s.txs, FaithfulTx s.coins tx := hp.faithful
+  -- swaps
+  obtain ⟨g1, l1, u1⟩ := swaps_phase s s1 s.coins d h1 hp.coinKeys hp.poolKeys hp.txHashes hp.coinKeys
+    hp.bounded (fun _ _ _ _ => rfl) (fun tx htx _ => hfaith tx htx)
+  have same1 : ∀ tx ∈ s.txs, tx.kind ≠ .swap → ∀ i,
+      s1.coins.getCoin ⟨tx.hash, i⟩ = s.coins.getCoin ⟨tx.hash, i⟩ := by
+    intro tx htx hk i
+    apply u1
+    intro tx2 htx2 hk2 e
+    have := eq_of_nodup_map _ hp.txHashes htx2 htx e
+    rw [this] at hk2; exact hk hk2
+  -- deposits
+  have ht1 : (s1.txs.map (·.hash)).Nodup := by rw [g1.txs]; exact hp.txHashes
+  obtain ⟨g2, l2, u2⟩ := deposits_phase env s1 s2 s.coins d h2
+    ((legacyDeposit_congr g1.height g1.network).trans hl) hd g1.coinKeys g1.poolKeys ht1
+    (fun tx htx hk i => same1 tx (g1.txs ▸ htx) (by rw [hk]; decide) i)
+    (fun tx htx _ => hfaith tx (g1.txs ▸ htx))
+  have same2 : ∀ tx ∈ s.txs, tx.kind ≠ .swap → tx.kind ≠ .liqDeposit → ∀ i,
+      s2.coins.getCoin ⟨tx.hash, i⟩ = s.coins.getCoin ⟨tx.hash, i⟩ := by
+    intro tx htx hk hk' i
+    rw [← same1 tx htx hk i]
+    apply u2
+    intro tx2 htx2 hk2 e
+    rw [g1.txs] at htx2
+    have := eq_of_nodup_map _ hp.txHashes htx2 htx e
+    rw [this] at hk2; exact hk' hk2
+  -- withdrawals
+  have g12 := g1.trans g2
+  have ht2 : (s2.txs.map (·.hash)).Nodup := by rw [g12.txs]; exact hp.txHashes
+  obtain ⟨g3, l3⟩ := withdrawals_phase env s2 s' s.coins d h3 hd g2.coinKeys g2.poolKeys ht2 hp.coinKeys
+    hp.bounded
+    (fun tx htx hk i => same2 tx (g12.txs ▸ htx) (by rw [hk]; decide) (by rw [hk]; decide) i)
+    (fun tx htx _ => hfaith tx (g12.txs ▸ htx))
+  have g := g12.trans g3
+  unfold supply
+  unfold cp at l1 l2 l3
+  rw [g.feePool, g.tips]
+  omega
 
 /-- creating a missing builtin pool adds its nobody-owned initial liquidity (10^9 on each side) and nothing else -/
 theorem C01_builtins (s : State) (d : Denom) (hk : (s.pools.map (·.1)).Nodup) :
     supply (createBuiltins s) d ≤ supply s d + 3 * (2 * (MICRO_CONVERTER * BUILTIN_LIQ_MULT)) ∧
     (createBuiltins s).coins = s.coins ∧ (createBuiltins s).feePool = s.feePool ∧ (createBuiltins s).tips = s.tips := by
-  sorry
+  refine ⟨?_, rfl, rfl, rfl⟩
+  have hX : builtinDefault.lefts + builtinDefault.rights = 2 * (MICRO_CONVERTER * BUILTIN_LIQ_MULT) := by
+    simp only [builtinDefault]; omega
+  unfold supply createBuiltins
+  simp only
+  have h1 := poolsTotal_setIf s.pools (s.pools.get poolMelSym).isNone poolMelSym builtinDefault d hk
+    (fun h => Option.isNone_iff_eq_none.mp h)
+  have h2 := poolsTotal_setIf _ (((if (s.pools.get poolMelSym).isNone then s.pools.set poolMelSym builtinDefault
+    else s.pools).get poolMelErg).isNone) poolMelErg builtinDefault d h1.1 (fun h => Option.isNone_iff_eq_none.mp h)
+  have h3 := poolsTotal_setIf _ (s.tip902 && ((if ((if (s.pools.get poolMelSym).isNone then
+    s.pools.set poolMelSym builtinDefault else s.pools).get poolMelErg).isNone then
+      (if (s.pools.get poolMelSym).isNone then s.pools.set poolMelSym builtinDefault else s.pools).set poolMelErg
+        builtinDefault
+    else (if (s.pools.get poolMelSym).isNone then s.pools.set poolMelSym builtinDefault else s.pools)).get
+      poolErgSym).isNone) poolErgSym builtinDefault d h2.1
+    (fun h => Option.isNone_iff_eq_none.mp (by simp only [Bool.and_eq_true] at h; exact h.2))
+  have a1 := h1.2
+  have a2 := h2.2
+  have a3 := h3.2
+  omega
 
 /-- pegging touches nothing but the MEL/SYM pool (coins, fee pool, tips and all other pools are unchanged) -/
 theorem C01_pegging_local (s s' : State) (h : processPegging s = .ok s') :
     s'.coins = s.coins ∧ s'.feePool = s.feePool ∧ s'.tips = s.tips ∧
     ∀ k, k ≠ poolMelSym → s'.pools.get k = s.pools.get k := by
-  sorry
+  unfold processPegging at h
+  simp only at h
+  obtain ⟨⟨a, b⟩, _, h⟩ := Outcome.bind_eq_ok h
+  simp only at h
+  obtain ⟨sm, _, h⟩ := Outcome.bind_eq_ok h
+  split at h
+  · cases h
+  · obtain ⟨sm1, _, h⟩ := Outcome.bind_eq_ok h
+    obtain ⟨sm2, _, h⟩ := Outcome.bind_eq_ok h
+    cases h
+    exact ⟨rfl, rfl, rfl, fun k hk => AList.get_set_ne _ _ hk⟩
 
 /-- the TIP-909 subsidy: SYM enters the MEL/SYM and ERG/SYM pools (at most `2^20 >> halvings` in total), the MEL
     bought with it moves from the pool to the fee pool (MEL is conserved), nothing else changes -/
@@ -53,14 +122,72 @@ theorem C01_subsidy (s s' : State) (h : applyTip909 s = .ok s') (hk : (s.pools.m
     s'.coins = s.coins ∧ s'.tips = s.tips ∧
     supply s' .mel ≤ supply s .mel ∧ supply s' .erg ≤ supply s .erg ∧
     supply s' .sym ≤ supply s .sym + 2 ^ SUBSIDY_LOG2 / 2 ^ ((s.height - TIP_909_HEIGHT) / SUBSIDY_HALVING) := by
-  sorry
+  unfold applyTip909 at h
+  simp only at h
+  split at h
+  · cases h
+  · split at h
+    · cases h
+    · next sm hsm =>
+      obtain ⟨⟨sm', mel, x⟩, h1, h⟩ := Outcome.bind_eq_ok h
+      simp only at h
+      split at h
+      · cases h
+      · split at h
+        · cases h
+        · next es hes =>
+          obtain ⟨⟨es', y, z⟩, h2, h⟩ := Outcome.bind_eq_ok h
+          cases h
+          refine ⟨rfl, rfl, ?_⟩
+          have l1 := swapMany_le h1
+          have l2 := swapMany_le h2
+          have hn1 := pools_nodup_set hk poolMelSym sm'
+          have t1 := fun d => poolsTotal_set hk d poolMelSym sm'
+          have t2 := fun d => poolsTotal_set hn1 d poolErgSym es'
+          simp only [AList.at?_some hsm, AList.at?_some hes] at t1 t2
+          have hA : 2 ^ SUBSIDY_LOG2 / 2 ^ ((s.height - TIP_909_HEIGHT) / SUBSIDY_HALVING) / 2 ^ SUBSIDY_ERG_SHIFT
+              ≤ 2 ^ SUBSIDY_LOG2 / 2 ^ ((s.height - TIP_909_HEIGHT) / SUBSIDY_HALVING) := Nat.div_le_self _ _
+          generalize 2 ^ SUBSIDY_LOG2 / 2 ^ ((s.height - TIP_909_HEIGHT) / SUBSIDY_HALVING) = reward at *
+          generalize reward / 2 ^ SUBSIDY_ERG_SHIFT = A at *
+          have m1 := t1 .mel; have m2 := t2 .mel
+          have e1 := t1 .erg; have e2 := t2 .erg
+          have s1 := t1 .sym; have s2 := t2 .sym
+          simp only [pc, poolMelSym_eq, poolErgSym_eq] at m1 m2 e1 e2 s1 s2
+          simp at m1 m2 e1 e2 s1 s2
+          unfold supply
+          simp only [poolMelSym_eq, poolErgSym_eq, if_true, reduceCtorEq, if_false]
+          clear h h1 h2 t1 t2
+          generalize s.tip909a = t at *
+          cases t
+          · simp only [Bool.false_eq_true, if_false] at l1 l2
+            omega
+          · simp only [if_true] at l1 l2
+            omega
 
 /-- the proposer reward moves MEL from the fee pool and the tips into one coin: nothing is created -/
 theorem C01_reward (env : Env) (s s' : State) (a : ProposerAction) (h : collectProposerFee env s a = .ok s')
     (hk : (s.coins.coins.map (·.1)).Nodup)
     (hfresh : s.coins.getCoin { txhash := env.rewardId s.height, index := 0 } = none) (d : Denom) :
     supply s' d = supply s d := by
-  sorry
+  unfold collectProposerFee at h
+  simp only at h
+  split at h
+  · cases h
+  · cases h
+    have hc := coinsTotal_insertCoin hk d { txhash := env.rewardId s.height, index := 0 }
+      { coinData := { covhash := a.rewardDest, value := s.feePool / 2 ^ REWARD_SHIFT + s.tips, denom := .mel,
+                      additionalData := [] }, height := s.height } s.tip906
+    rw [cwAt_none hfresh] at hc
+    have hle : s.feePool / 2 ^ REWARD_SHIFT ≤ s.feePool := Nat.div_le_self _ _
+    unfold supply
+    simp only [cw] at hc ⊢
+    by_cases hd : d = .mel
+    · subst hd
+      simp only [if_true] at hc ⊢
+      omega
+    · have hd' : ¬ Denom.mel = d := fun e => hd e.symm
+      simp only [hd, hd', if_false] at hc ⊢
+      omega
 
 /-- known deviation (K-legacy-deposit): inside the legacy window the deposited second coin is not consumed,
     so a deposit duplicates its right-hand amount. Witness at the level of the per-pool step: the coin removal
@@ -68,6 +195,30 @@ theorem C01_reward (env : Env) (s s' : State) (a : ProposerAction) (h : collectP
 theorem C01_legacy_deposit_keeps_coin (env : Env) (k : PoolKey) (s s' : State) (tx : Tx)
     (hl : legacyDeposit s = true) (h : processDepositsForPool env k s [tx] = .ok s') (c : CoinDataHeight)
     (hc : s.coins.getCoin (outCoinID tx 1) = some c) : s'.coins.getCoin (outCoinID tx 1) = some c := by
-  sorry
+  unfold processDepositsForPool at h
+  simp only at h
+  split at h
+  · cases h
+  · cases h
+  · obtain ⟨coins, hf, h2⟩ := Outcome.bind_eq_ok h
+    cases h2
+    simp only [Outcome.foldlM', hl, if_true] at hf
+    split at hf
+    · next b1 hb1 =>
+      cases hf
+      obtain ⟨v, _, hb1⟩ := Outcome.bind_eq_ok hb1
+      cases hb1
+      simp only
+      rw [CoinMap.getCoin_insertCoin_ne _ _ _ (by unfold outCoinID; intro e; cases e)]
+      exact hc
+    · cases hf
+    · cases hf
 
 end Mel
+
+#print axioms Mel.C01_settlement
+#print axioms Mel.C01_builtins
+#print axioms Mel.C01_pegging_local
+#print axioms Mel.C01_subsidy
+#print axioms Mel.C01_reward
+#print axioms Mel.C01_legacy_deposit_keeps_coin
